@@ -1,0 +1,7 @@
+//go:build !verif
+
+package regexp2
+
+// verifClockPoint marks a scheduling point of makeDeadline for the verification harness under
+// /verif; without the build tag verif it is empty and inlined away.
+func verifClockPoint(int) {}
